@@ -1,6 +1,7 @@
 """C16 check configuration."""
 
 PROP = {
+    "level_text_more": 'The histories keep some DoT connections open and send further queries on them later, also after a reconfiguration (the old proxy still serves them); a third of the histories begin with such a client.',
     "thorough_scale": 4,
     "parts": [
         {"name": "server", "pkg": "internal/dnsforward",
